@@ -586,6 +586,19 @@ def js_escape(prog: Program) -> RuleResult:
     RAISING = {"import_module": "ImportError / ModuleNotFoundError / ValueError", "__import__": "ImportError", "getattr": "AttributeError (fine) - or whatever the target's own hook raises",
                "get_type_hints": "NameError", "eval": "anything", "exec": "anything", "open": "OSError"}
     hooks = [f_ for f_ in prog.functions.values() if f_.name == "__getattr__" and f_.cls is None and f_.node in f_.module.tree.body]
+    # what the resolver converts around its getattr(module, name): exceptions of those classes may leave a hook
+    HOOK_RAISES = {"import_module": {"ImportError"}, "__import__": {"ImportError"}, "get_type_hints": {"NameError"}, "open": {"OSError"}}
+    conv = set()
+    res_ = it.f
+    for t_ in [x for x in ast.walk(res_.node) if isinstance(x, ast.Try)]:
+        if any(isinstance(c_, ast.Call) and isinstance(c_.func, ast.Name) and c_.func.id == "getattr" for st in t_.body for c_ in ast.walk(st)):
+            for h in t_.handlers:
+                names = [src(t).split(".")[-1] for t in (h.type.elts if isinstance(h.type, ast.Tuple) else [h.type])] if h.type is not None else ["BaseException"]
+                if h.body and isinstance(h.body[-1], ast.Raise):
+                    conv |= set(names)
+    if "ModuleNotFoundError" in conv and "ImportError" not in conv:
+        conv.discard("ModuleNotFoundError")  # not the whole family
+    r.note(f"the resolver converts {sorted(conv)} around getattr(module, name)")
     for hk in sorted(hooks, key=lambda x: x.qual):
         bad = None
         parents = {}
@@ -611,6 +624,9 @@ def js_escape(prog: Program) -> RuleResult:
             if isinstance(n_, ast.Raise) and n_.exc is not None and "AttributeError" not in src(n_.exc) and not converted(n_):
                 bad = bad or (n_, f"raises {src(n_.exc)[:40]}")
             if isinstance(n_, ast.Call) and call_name(n_) in RAISING and call_name(n_) != "getattr" and not converted(n_):
+                classes = HOOK_RAISES.get(call_name(n_))
+                if classes is not None and (classes <= conv or "Exception" in conv or "BaseException" in conv):
+                    continue  # the resolver converts what this call can raise
                 bad = bad or (n_, f"{call_name(n_)}() can raise {RAISING[call_name(n_)]}")
         r.check(bad is None, f"{hk.module.name.split('.')[-1] or hk.module.name}.__getattr__#only-attribute-error", site(hk, bad[0]) if bad else site(hk), src(bad[0])[:80] if bad else "module-level __getattr__",
                 "a missing name ends in AttributeError",
